@@ -1063,6 +1063,73 @@ pub fn check_c08(cx: &Ctx, ix: &Index) -> Report {
 }
 
 // ---------------------------------------------------------------------------------------------
+// C06 (local obligation behind "a faulty leader costs a bounded number of timeouts"): an honest node
+// that enters a round it leads *through a timeout certificate* (assembled by itself or received from a
+// peer) proposes in that round: a `Make` for the round appears before the node leaves the round or
+// times out in it. (Entering a led round through the QC carried by a peer's timeout is not covered:
+// the repository does not propose there.) Without this, a schedule that always lets a peer's TC reach
+// the next leader first turns one crashed leader into an endless sequence of view changes.
+pub fn check_c06_leader_after_tc(cx: &Ctx, ix: &Index) -> Report {
+    let mut r = Report::default();
+    let t = cx.topo;
+    for (&i, positions) in &ix.core {
+        if !cx.is_honest(i) {
+            continue;
+        }
+        // TC rounds seen in the current handler (received as input or assembled).
+        let mut tcs_in_handler: Vec<u64> = Vec::new();
+        let mut pending: Option<(u64, usize)> = None; // (round to propose in, position of the Round event)
+        for &p in positions {
+            match &cx.log[p].kind {
+                Kind::Core(CE::Begin { input, .. }) => {
+                    tcs_in_handler.clear();
+                    if let consensus::verif::Input::TC(tc) = input {
+                        tcs_in_handler.push(tc.round);
+                    }
+                }
+                Kind::Core(CE::TC { tc, .. }) => tcs_in_handler.push(tc.round),
+                Kind::Core(CE::Make { round, .. }) => {
+                    if let Some((want, _)) = pending {
+                        if *round == want {
+                            r.count("C06.leader_entered_by_tc_and_proposed", 1);
+                            pending = None;
+                        }
+                    }
+                }
+                Kind::Core(CE::Round { from, to, .. }) if to > from => {
+                    if let Some((want, at)) = pending.take() {
+                        r.violate(
+                            "C06",
+                            "leader-entered-round-by-tc-without-proposing",
+                            format!("node {} entered round {} (which it leads) through a timeout certificate and left it for round {} without proposing", i, want, to),
+                            vec![describe(&cx.log[at])],
+                        );
+                    }
+                    if tcs_in_handler.iter().any(|x| x + 1 == *to) && t.leader(*to) == i {
+                        pending = Some((*to, p));
+                    }
+                }
+                Kind::Core(CE::Timeout { round, .. }) => {
+                    if let Some((want, at)) = pending {
+                        if *round == want {
+                            pending = None;
+                            r.violate(
+                                "C06",
+                                "leader-entered-round-by-tc-without-proposing",
+                                format!("node {} entered round {} (which it leads) through a timeout certificate and timed out in it without having proposed", i, want),
+                                vec![describe(&cx.log[at])],
+                            );
+                        }
+                    }
+                }
+                _ => {}
+            }
+        }
+    }
+    r
+}
+
+// ---------------------------------------------------------------------------------------------
 // C09 (node-boundary parts): votes only for the round's leader's blocks; no honest equivocation
 pub fn check_c09(cx: &Ctx, ix: &Index, sc: &mut SigCache) -> Report {
     let mut r = Report::default();
@@ -1313,6 +1380,7 @@ pub fn check_all(cx: &Ctx) -> (Report, Index) {
     r.merge(check_c09(cx, &ix, &mut sc));
     r.merge(check_c19_acceptance(cx, &ix, &mut sc));
     r.merge(check_c07_always(cx, &ix));
+    r.merge(check_c06_leader_after_tc(cx, &ix));
     r.count("sig_checks", sc.checks);
     // General run statistics.
     let mut kinds: BTreeMap<&'static str, u64> = BTreeMap::new();
